@@ -60,6 +60,15 @@ theorem rows3 {α} (l : List α) (f g h : α → Rat) (ka kb kc : String) (h1 : 
 
 /-! ### the osu chart as a source of C08's converter model -/
 
+/-- the text attributes of an `OsuMap` the converters read (C08's model keeps attributes as strings; numbers are
+opaque to it) -/
+def osuAttrs (c : Osu.Chart) : List (String × String) :=
+  [("audio_file_name", String.ofList c.md.audioFileName), ("title", String.ofList c.md.title),
+   ("title_unicode", String.ofList c.md.titleUnicode), ("artist", String.ofList c.md.artist),
+   ("artist_unicode", String.ofList c.md.artistUnicode), ("creator", String.ofList c.md.creator),
+   ("version", String.ofList c.md.version), ("background_file_name", String.ofList c.md.backgroundFileName),
+   ("preview_time", "<preview_time>")]
+
 /-- the list frames of an in-memory `OsuMap` as far as a converter reads them: the key columns of the four lists, row
 labels `0..n-1` (a freshly read chart) -/
 def embOsu (c : Osu.Chart) : SrcMap :=
@@ -67,7 +76,7 @@ def embOsu (c : Osu.Chart) : SrcMap :=
     ("hits", numFrame c.hits [("offset", fun h => h.offset), ("column", fun h => (h.column : Rat))]),
     ("holds", numFrame c.holds [("offset", fun h => h.offset), ("column", fun h => (h.column : Rat)),
                                 ("length", fun h => h.length)]),
-    ("bpms", numFrame c.bpms [("offset", fun b => b.offset), ("bpm", fun b => b.bpm)])], [], ""⟩
+    ("bpms", numFrame c.bpms [("offset", fun b => b.offset), ("bpm", fun b => b.bpm)])], osuAttrs c, ""⟩
 
 /-- **embedding commutes with abstraction**: the frames of an osu chart hold exactly its abstract chart -/
 theorem ofSrcMap_embOsu (c : Osu.Chart) : ofSrcMap (embOsu c) = ofOsu c := by
